@@ -46,6 +46,7 @@ func checkC07(r *Report, p *Program) {
 	// conditions are parsed field by field only where the field has the expected type (shared with C13)
 	commaOkValuesUsedWhenOk(r, p, "R07.19", 20)
 	freshDecodeTargets(r, p, "R07.20")
+	hookAnswerFrozenAfterGate(r, p, "R07.21")
 }
 
 // r07_9: which fields are revisioned. The default (all of spec) applies whenever the
